@@ -849,9 +849,11 @@ fn gen_op(rng: &mut Rng, shape: &[usize], allow_owned: bool) -> Op {
                 if r == 0 {
                     continue;
                 }
-                let a = rng.usize_below(r);
+                // axis >= ndim (panics before any mutation since 90df0e8) one time in ten
+                let a_real = rng.usize_below(r);
+                let a = if rng.chance(1, 10) { r + rng.usize_below(r + 2) } else { a_real };
                 let mut o = shape.to_vec();
-                o[a] = gen_size(rng);
+                o[a_real] = gen_size(rng);
                 if bad {
                     let k = rng.usize_below(r);
                     o[k] += 1;
@@ -870,8 +872,9 @@ fn gen_op(rng: &mut Rng, shape: &[usize], allow_owned: bool) -> Op {
                 if r == 0 {
                     continue;
                 }
-                let a = rng.usize_below(r);
-                let n = shape[a];
+                let a_real = rng.usize_below(r);
+                let a = if rng.chance(1, 10) { r + rng.usize_below(r + 2) } else { a_real };
+                let n = shape[a_real];
                 let s = rng.usize_below(n + 1);
                 let e = if bad { rng.usize_below(n + 3) } else { s + rng.usize_below(n - s + 1) };
                 Op::Clip(a, s, e)
@@ -1235,6 +1238,51 @@ fn range_cases(out: &mut Out) {
     }
 }
 
+/// `copy_blocked` driven through `to_vec` on `rows x cols` views whose column stride selects the
+/// blocked copy (`cs % 16 == 0 && cs >= 32`); request `CB rows cols rs cs`, answer = element list.
+/// The Lean side replays its write-by-write model of the loop nest (`Copy.copyBlocked`).
+fn copy_blocked_cases(out: &mut Out, rng: &mut Rng, n: usize) {
+    let sizes: [usize; 14] = [1, 2, 3, 4, 5, 7, 8, 9, 13, 16, 63, 64, 65, 70];
+    for _ in 0..n {
+        let (mut rows, mut cols) = (*rng.pick(&sizes), *rng.pick(&sizes));
+        if rows * cols > 1200 {
+            if rng.chance(1, 2) { rows = *rng.pick(&sizes[..10]) } else { cols = *rng.pick(&sizes[..10]) }
+        }
+        let cs = *rng.pick(&[32usize, 48, 64, 96]);
+        let rs = match rng.below(4) {
+            0 => 1,
+            1 => 2 + rng.usize_below(3),
+            2 => 5 + rng.usize_below(11),
+            _ => cs * cols + rng.usize_below(3),
+        };
+        let req = format!("CB {rows} {cols} {rs} {cs}");
+        let storelen = (rows - 1) * rs + (cols - 1) * cs + 1;
+        let store: Vec<u32> = (0..storelen as u32).collect();
+        let res = hcommon::catch(|| {
+            let v = TensorView::from_slice_with_strides(&[rows, cols][..], store.as_slice(), &[rs, cs][..]).unwrap();
+            let got = v.to_vec();
+            let want: Vec<u32> = (0..rows)
+                .flat_map(|r| (0..cols).map(move |c| (r * rs + c * cs) as u32))
+                .collect();
+            (got, want)
+        });
+        let (ans, fail) = match res {
+            Ok((got, want)) => {
+                let fail = if got != want {
+                    let at = got.iter().zip(&want).position(|(a, b)| a != b).unwrap_or(0);
+                    Some(format!("to_vec differs from src[r*rs + c*cs] at position {at}: {} vs {}", got[at], want[at]))
+                } else {
+                    None
+                };
+                (hcommon::join(got.iter(), ","), fail)
+            }
+            Err(_) => ("panic".to_string(), None),
+        };
+        out.bucket("family_copy_blocked");
+        out.case(&req, &ans, fail.as_deref(), false);
+    }
+}
+
 fn main() {
     let args = hcommon::parse_args();
     hcommon::quiet_panics();
@@ -1246,10 +1294,11 @@ fn run(args: &Args) {
     let mut rng = Rng::new(args.seed);
     boundary_cases(&mut out);
     range_cases(&mut out);
+    copy_blocked_cases(&mut out, &mut rng, if args.thorough { 1500 } else { 150 });
     large_copy_cases(&mut out, &mut rng, if args.thorough { 4000 } else { 400 });
     let n = if args.thorough { 400_000 } else { 40_000 };
     for i in 0..n {
         random_case(&mut out, &mut rng, i % 3 == 0);
     }
-    out.finish("SliceRange::steps/resolve/resolve_clamped driven directly for n=0..5, start/stop in [-n-2,n+2] or omitted, steps ±1,±2,±3,±7; rank-5/6 slice_copy cases (recursive copy branch) with reversed, stepped, shrinking, clamped ranges and index items at every axis position; large-copy family (400 / 4000 cases): 2..6-D sources with up to 1600 elements, inner sizes 1..67 straddling the 4x4 tile and 64x64 block of copy_blocked, innermost strides 1,2,3,16,20,32,48,64,96,128 and row strides 1..70 or past-the-row, optional broadcast/padded outer axes, followed by tc / rs / tr+tc / perm+tc / slc / stepped sl+tc / ma+tc, every case ending with to_vec, map, to_tensor and copy_from (contiguous and transposed destination) compared with element-wise get; exhaustive 1-D slice specs (start,stop in [-n-2,n+2] or omitted, steps ±1,±2,±3,±6, n=0..4) for slice and slice_copy; index+reversed-range combinations on transposed 2-D sources; random chains of 1..5 ops (perm tr mv sl slc sa ix bc ia ra sq ma spl spr rs tc, every third chain also app/clip) generated against the reference shape (1 in 14 ops deliberately invalid) on random sources: rank 0..4, sizes 0..4, contiguous / permuted / stepped / broadcast(stride 0) / arbitrary strides, optional slack at the end of the buffer; element values = storage offsets (unique ids); non-trivial = chain of >=2 ops with a result of >=2 elements; distinct by request text");
+    out.finish("copy_blocked through to_vec on rows x cols views (sizes 1..70, column strides 32/48/64/96, row strides 1, 2..4, 5..15, past-the-row) compared with the Lean write-by-write model; append/clip_dim with axis >= ndim one time in ten; SliceRange::steps/resolve/resolve_clamped driven directly for n=0..5, start/stop in [-n-2,n+2] or omitted, steps ±1,±2,±3,±7; rank-5/6 slice_copy cases (recursive copy branch) with reversed, stepped, shrinking, clamped ranges and index items at every axis position; large-copy family (400 / 4000 cases): 2..6-D sources with up to 1600 elements, inner sizes 1..67 straddling the 4x4 tile and 64x64 block of copy_blocked, innermost strides 1,2,3,16,20,32,48,64,96,128 and row strides 1..70 or past-the-row, optional broadcast/padded outer axes, followed by tc / rs / tr+tc / perm+tc / slc / stepped sl+tc / ma+tc, every case ending with to_vec, map, to_tensor and copy_from (contiguous and transposed destination) compared with element-wise get; exhaustive 1-D slice specs (start,stop in [-n-2,n+2] or omitted, steps ±1,±2,±3,±6, n=0..4) for slice and slice_copy; index+reversed-range combinations on transposed 2-D sources; random chains of 1..5 ops (perm tr mv sl slc sa ix bc ia ra sq ma spl spr rs tc, every third chain also app/clip) generated against the reference shape (1 in 14 ops deliberately invalid) on random sources: rank 0..4, sizes 0..4, contiguous / permuted / stepped / broadcast(stride 0) / arbitrary strides, optional slack at the end of the buffer; element values = storage offsets (unique ids); non-trivial = chain of >=2 ops with a result of >=2 elements; distinct by request text");
 }
